@@ -343,14 +343,18 @@ func (r *runningRoutine) execute(
 				} else if r.r.routine == r {
 					dur := r.r.retryBo.NextBackOff()
 					if dur != backoff.Stop {
-						r.deferRetry = time.AfterFunc(dur, func() {
+						var timer *time.Timer
+						timer = time.AfterFunc(dur, func() {
 							r.r.bcast.HoldLock(func(broadcast func(), getWaitCh func() <-chan struct{}) {
-								if r.r.ctx != nil && r.r.routine == r && r.exited {
+								// ignore the timer if it was stopped too late (it fired
+								// already): the routine was restarted since it was armed.
+								if r.deferRetry == timer && r.r.ctx != nil && r.r.routine == r && r.exited {
 									r.start(r.r.ctx, r.exitedCh, true)
 								}
 								broadcast()
 							})
 						})
+						r.deferRetry = timer
 					}
 				}
 			}
